@@ -9,6 +9,7 @@ import BespokeVerif.Model.Constraint
 import BespokeVerif.Model.Instr
 import BespokeVerif.Model.Expr
 import BespokeVerif.Model.Layout
+import BespokeVerif.Model.Parse
 import BespokeVerif.Model.Subst
 import BespokeVerif.Model.Output
 import BespokeVerif.Model.Pipeline
@@ -407,6 +408,21 @@ def opAsm (j : Json) : R Json := do
                        ("lines", Json.arr (o.emitted.map jEmitted).toArray), ("labels", jLabels o.labels),
                        ("everyGapHasOrg", gapOk), ("minhexModelMap", mhMap)]
 
+/-- op "asmtext": the same program as SOURCE TEXT (the very text the real assembler reads): parsed by
+    `Model/Parse`, then assembled by the layout model -/
+def opAsmText (j : Json) : R Json := do
+  let cfg ← parseCfg (← fld j "cfg")
+  let files ← (← arr j "files").toList.mapM fun f => do pure ((← str f "name"), (← str f "text"))
+  let start := intD j "start" 0
+  let stop := optInt j "end"
+  let fill := (intD j "fill" 0) % 256
+  let pc : PCfg := { regs := cfg.regs, mnemonics := (cfg.tbl.map (·.1)) ++ (cfg.macros.map (·.1)),
+                     cstrTerm := (intD j "cstrTerm" 0).toNat, embedded := boolD j "embedded" false,
+                     fileNames := files.map (·.1) }
+  match asmText cfg pc (files.map (·.2)) start stop fill.toNat with
+  | .error e => return Json.mkObj [("err", Json.str e.name)]
+  | .ok o => return Json.mkObj [("image", jNats o.image), ("lines", Json.arr (o.emitted.map jEmitted).toArray)]
+
 /-- block trees: {"b":"line","id":n} {"b":"define","name":..,"v":..}
     {"b":"chain","open":{"d":"if","c":..}|{"d":"ifdef","s":..},"body":[..],"elifs":[{"c":..,"body":[..]}],"else":[..]|null} -/
 partial def parseBlock (j : Json) : R Block := do
@@ -624,6 +640,7 @@ def dispatch (j : Json) : R Json := do
   | "fields" => opFields j
   | "expr" => opExpr j
   | "asm" => opAsm j
+  | "asmtext" => opAsmText j
   | "condtree" => opCondTree j
   | "substprog" => opSubstProg j
   | "decode" => opDecode j
